@@ -156,6 +156,32 @@ def c11_concurrent(ext=".zst"):
     return {"violates": not ok, "detail": None if ok else "records of two streams written / read side by side are mixed up or lost"}
 
 
+def c11_hash_name():
+    import gzip
+
+    from flow.record import RecordDescriptor, RecordReader, RecordWriter
+
+    D = RecordDescriptor("c11/rec", [("varint", "n")])
+    with tempfile.TemporaryDirectory() as td:
+        p = os.path.join(td, "evidence#1.records.gz")
+        w = RecordWriter(p)
+        w.write(D(n=5))
+        w.close()
+        files = sorted(os.listdir(td))
+        bad = None
+        if files != ["evidence#1.records.gz"]:
+            bad = f"the directory holds {files}, the writer was asked for 'evidence#1.records.gz'"
+        else:
+            try:
+                gzip.open(p).read()
+                back = [r.n for r in RecordReader(p)]
+                if back != [5]:
+                    bad = f"read back {back}"
+            except Exception as e:
+                bad = f"{type(e).__name__}: {e}"
+    return {"violates": bool(bad), "detail": bad}
+
+
 def c11_adapters():
     from flow.record import RecordWriter
 
@@ -277,4 +303,4 @@ def c11_model_conformance():
     return {"ok": True, "cases": 4, "violates": False}
 
 
-CALLS = {"c11_concurrent": c11_concurrent, "c11_matrix": c11_matrix, "c11_adapters": c11_adapters, "c11_refuse": c11_refuse, "c11_sweep": c11_sweep, "c11_model_conformance": c11_model_conformance}
+CALLS = {"c11_hash_name": c11_hash_name, "c11_concurrent": c11_concurrent, "c11_matrix": c11_matrix, "c11_adapters": c11_adapters, "c11_refuse": c11_refuse, "c11_sweep": c11_sweep, "c11_model_conformance": c11_model_conformance}
